@@ -117,41 +117,85 @@ def model_resolve(model, mp, n):
 
 
 def _analyse_fold(hm):
+    """-> "in-order" | text describing what is wrong.  AnalysisError for shapes
+    that are neither recognised as right nor as wrong."""
     fn = hm.node
     params = [a.arg for a in fn.args.args]
     children, op = params[1], params[2]
-    src = ast.unparse(fn)
-    # rec over all children in order
-    rec_ok = False
+    U = lambda n: ast.unparse(n).replace(" ", "")     # noqa: E731
+    # the list of mapped children, in order
+    L = None
     for n in ast.walk(fn):
-        if isinstance(n, ast.ListComp) and ast.unparse(n.generators[0].iter) == \
-                children and not n.generators[0].ifs and \
-                ast.unparse(n.elt) == f"self.rec({ast.unparse(n.generators[0].target)})":
-            rec_ok = True
-    if not rec_ok:
+        if isinstance(n, ast.Assign) and len(n.targets) == 1 and isinstance(
+                n.targets[0], ast.Name) and isinstance(n.value, ast.ListComp):
+            lc = n.value
+            g = lc.generators[0]
+            if len(lc.generators) == 1 and U(g.iter) == children and not g.ifs \
+                    and U(lc.elt) == f"self.rec({U(g.target)})":
+                L = n.targets[0].id
+    if L is None:
         return "does not map every child in order"
     binops = [n for n in ast.walk(fn) if isinstance(n, ast.Call)
-              and ast.unparse(n.func) == "ast.BinOp"]
+              and U(n.func) == "ast.BinOp"]
+    # pairwise combination over two strided slices: zip() stops at the shorter
+    # one, so a level of odd length loses its last element unless the loop
+    # body itself deals with it
+    for w in ast.walk(fn):
+        if not isinstance(w, ast.While):
+            continue
+        for st in w.body:
+            if isinstance(st, ast.Assign) and isinstance(st.value, ast.ListComp):
+                it = st.value.generators[0].iter
+                if isinstance(it, ast.Call) and U(it.func) == "zip" and \
+                        len(it.args) == 2 and all(
+                        isinstance(x, ast.Subscript) and isinstance(
+                            x.slice, ast.Slice) and x.slice.step is not None
+                        for x in it.args):
+                    body_src = "".join(U(x) for x in w.body)
+                    handles_odd = "%2" in body_src or "[-1]" in body_src or \
+                        "zip_longest" in body_src or "divmod" in body_src
+                    if not handles_odd:
+                        return ("combines the mapped children pairwise with "
+                                f"'{ast.unparse(it)}' in a loop that never looks "
+                                "at an odd element out: zip() stops at the "
+                                "shorter slice, so every level of odd length "
+                                "loses an operand (6 operands -> 3 pairs -> 1 "
+                                "pair, the third is dropped)")
+                    raise AnalysisError("_map_multi_children_op: pairwise fold "
+                                        "with odd-length handling not modelled")
     loops = [n for n in ast.walk(fn) if isinstance(n, ast.For)]
     if len(binops) != 1 or len(loops) != 1:
         raise AnalysisError("_map_multi_children_op: fold shape not recognised")
     lp, bo = loops[0], binops[0]
-    it = ast.unparse(lp.iter).replace(" ", "")
-    var = ast.unparse(lp.target)
-    args = [ast.unparse(a) for a in bo.args]
-    init_last = "result=rec_children[-1]" in src.replace(" ", "")
-    init_first = "result=rec_children[0]" in src.replace(" ", "")
-    if it.endswith("[-2::-1]") and init_last:
+    it = U(lp.iter)
+    var = U(lp.target)
+    args = [U(a) for a in bo.args]
+    # the accumulator: the name the BinOp is assigned to
+    acc = None
+    for n in ast.walk(lp):
+        if isinstance(n, ast.Assign) and n.value is bo and isinstance(
+                n.targets[0], ast.Name):
+            acc = n.targets[0].id
+    if acc is None:
+        raise AnalysisError("_map_multi_children_op: accumulator not recognised")
+    init = None
+    for st in fn.body:
+        if st is lp:
+            break
+        if isinstance(st, ast.Assign) and U(st.targets[0]) == acc:
+            init = U(st.value)
+    right_iters = (f"{L}[-2::-1]", f"reversed({L}[:-1])", f"{L}[:-1][::-1]")
+    if it in right_iters and init == f"{L}[-1]":
         # right fold: BinOp(child, op, result)
-        if args == [var, op, "result"]:
+        if args == [var, op, acc]:
             return "in-order"
-        if args == ["result", op, var]:
-            return "builds ast.BinOp(result, op, child) in a right fold"
-    if it.endswith("[1:]") and init_first:
-        if args == ["result", op, var]:
+        if args == [acc, op, var]:
+            return f"builds ast.BinOp({acc}, op, child) in a right fold"
+    if it == f"{L}[1:]" and init == f"{L}[0]":
+        if args == [acc, op, var]:
             return "in-order"
-        if args == [var, op, "result"]:
-            return "builds ast.BinOp(child, op, result) in a left fold"
+        if args == [var, op, acc]:
+            return f"builds ast.BinOp(child, op, {acc}) in a left fold"
     raise AnalysisError("_map_multi_children_op: fold shape not recognised")
 
 
